@@ -3,6 +3,7 @@ package props
 import (
 	"fmt"
 	"go/constant"
+	"go/token"
 	"go/types"
 	"sort"
 	"strings"
@@ -49,6 +50,7 @@ func C04tweak(p *load.Program, run *report.Run) {
 		blk  *ssa.BasicBlock
 	}
 	var resolve func(v ssa.Value, depth int, seen map[ssa.Value]bool) ([]origin, string)
+	var loopsOfFwd func(b *ssa.BasicBlock) string
 	structOf := func(t types.Type) string {
 		if pt, ok := t.Underlying().(*types.Pointer); ok {
 			t = pt.Elem()
@@ -89,7 +91,38 @@ func C04tweak(p *load.Program, run *report.Run) {
 			}
 			a, e1 := resolve(t.X, depth+1, seen)
 			b, e2 := resolve(t.Y, depth+1, seen)
-			return append(a, b...), e1 + e2
+			// a sum of a longer-lived counter and a shorter-lived index (session position + index in the
+			// circuit) lives as long as the longer-lived part: fields before locals, outer locals before inner
+			all := append(a, b...)
+			if (t.Op == token.ADD || t.Op == token.OR) && e1+e2 == "" && len(a) > 0 && len(b) > 0 {
+				var fields, locals []origin
+				for _, o := range all {
+					if o.kind == "field" {
+						fields = append(fields, o)
+					} else {
+						locals = append(locals, o)
+					}
+				}
+				if len(fields) > 0 {
+					return fields, ""
+				}
+				best := locals[0]
+				for _, o := range locals[1:] {
+					if o.fn == best.fn && len(loopsOfFwd(o.blk)) < len(loopsOfFwd(best.blk)) {
+						best = o
+					}
+				}
+				sameFn := true
+				for _, o := range locals {
+					if o.fn != best.fn {
+						sameFn = false
+					}
+				}
+				if sameFn {
+					return []origin{best}, ""
+				}
+			}
+			return all, e1 + e2
 		case *ssa.Convert:
 			return resolve(t.X, depth+1, seen)
 		case *ssa.ChangeType:
@@ -99,6 +132,34 @@ func C04tweak(p *load.Program, run *report.Run) {
 		case *ssa.Extract:
 			return resolve(t.Tuple, depth+1, seen)
 		case *ssa.Alloc:
+			// a local that is (re)initialised from longer-lived state — `id := (session.position + i) << 1`
+			// handed on by address — lives as long as what it is computed from
+			if t.Referrers() != nil {
+				var from []origin
+				for _, r := range *t.Referrers() {
+					if st, ok := r.(*ssa.Store); ok && st.Addr == ssa.Value(t) {
+						if _, isConst := st.Val.(*ssa.Const); isConst {
+							from = nil
+							break
+						}
+						o, er := resolve(st.Val, depth+1, seen)
+						if er != "" {
+							from = nil
+							break
+						}
+						from = append(from, o...)
+					}
+				}
+				var fields []origin
+				for _, o := range from {
+					if o.kind == "field" {
+						fields = append(fields, o)
+					}
+				}
+				if len(fields) > 0 {
+					return fields, ""
+				}
+			}
 			return []origin{{kind: "local", fn: t.Parent(), blk: t.Block()}}, ""
 		case *ssa.Call:
 			return []origin{{kind: "local", fn: t.Parent(), blk: t.Block()}}, ""
@@ -214,6 +275,7 @@ func C04tweak(p *load.Program, run *report.Run) {
 		}
 		return out
 	}
+	loopsOfFwd = loopsOf
 	render := func(o origin) string {
 		if o.kind == "field" {
 			return "field " + o.typ + "." + o.name
@@ -286,4 +348,89 @@ func C04tweak(p *load.Program, run *report.Run) {
 		}
 	}
 	run.Floor("tweaked-hash-calls", 20)
+	c04positions(p, run)
+}
+
+// c04positions: tweaks derived from a gate's position keep the windows of consecutive circuits apart.
+//
+// A streamed session may number its tweaks by position instead of by a running counter: gate i of a
+// circuit that starts at session position S gets the tweaks a·S + b·i + c … (+1), and S advances by the
+// number of gates.  Within one circuit the windows are disjoint when b covers what a gate uses (two); the
+// next circuit starts at a·(S+n), which clears this circuit's last window b·(n-1)+… only if a >= b.
+// `first + uint32(i)<<1` (Go's precedence: first + 2·i) has a = 1, b = 2: the upper half of every
+// circuit's windows is handed out again to the next circuit, and two gates with the same first input
+// and the same tweak leak the offset.  The rule evaluates the per-gate tweak base as an affine form and
+// requires a == b >= 2; a running counter (no loop index in the form) is the other, accepted, design.
+func c04positions(p *load.Program, run *report.Run) {
+	const rule = "position-tweaks-disjoint"
+	run.Rule(rule, "in Streaming.Garble: if the tweak counter handed to garbleGate is a local computed per gate as a*S + b*i + c (S a field of the session, i the gate index), then a == b and b >= 2; a counter kept in the session object itself is decided by tweak-scope")
+	f, err := p.Method("circuit", "Streaming", "Garble")
+	if err != nil {
+		run.Undecided(rule, "circuit.Streaming.Garble", "", err.Error())
+		return
+	}
+	key := "circuit.Streaming.Garble/tweak base"
+	found := false
+	for _, b := range f.Blocks {
+		for _, ins := range b.Instrs {
+			c, ok := ins.(*ssa.Call)
+			if !ok || c.Call.StaticCallee() == nil || c.Call.StaticCallee().Name() != "garbleGate" {
+				continue
+			}
+			for i, prm := range c.Call.StaticCallee().Params {
+				pt, ok := prm.Type().Underlying().(*types.Pointer)
+				if !ok || i >= len(c.Call.Args) {
+					continue
+				}
+				if bt, ok := pt.Elem().Underlying().(*types.Basic); !ok || bt.Kind() != types.Uint32 {
+					continue
+				}
+				found = true
+				al, isLocal := c.Call.Args[i].(*ssa.Alloc)
+				if !isLocal {
+					run.OK(rule, key, p.Rel(c.Pos()), "a running counter kept outside the gate loop")
+					continue
+				}
+				var vals []ssa.Value
+				if al.Referrers() != nil {
+					for _, r := range *al.Referrers() {
+						if st, ok := r.(*ssa.Store); ok && st.Addr == ssa.Value(al) {
+							vals = append(vals, st.Val)
+						}
+					}
+				}
+				if len(vals) != 1 {
+					run.OK(rule, key, p.Rel(c.Pos()), "not a per-gate affine form")
+					continue
+				}
+				a := newAffEnv(f).eval(vals[0])
+				if !a.ok {
+					run.OK(rule, key, p.Rel(c.Pos()), "not a per-gate affine form")
+					continue
+				}
+				var ci, cs int64
+				nloop, nsym := 0, 0
+				for s, k := range a.sym {
+					if strings.HasPrefix(s, "i#") {
+						ci, nloop = k, nloop+1
+					} else {
+						cs, nsym = k, nsym+1
+					}
+				}
+				switch {
+				case nloop == 0:
+					run.OK(rule, key, p.Rel(c.Pos()), "a running counter")
+				case nloop != 1 || nsym != 1:
+					run.OK(rule, key, p.Rel(c.Pos()), "not a position-plus-index form")
+				case cs == ci && ci >= 2:
+					run.OK(rule, key, p.Rel(c.Pos()), fmt.Sprintf("tweak base %d*(position + index)", ci))
+				default:
+					run.Violate(rule, key, p.Rel(c.Pos()), fmt.Sprintf("the tweak base is %d*position + %d*index: a gate uses up to two tweaks and the position advances by one per gate, so the windows of consecutive circuits overlap unless both factors are equal and at least two — tweaks are reused under the session key", cs, ci), nil)
+				}
+			}
+		}
+	}
+	if !found {
+		run.Undecided(rule, key, p.Rel(f.Pos()), "no call of garbleGate with a tweak counter found")
+	}
 }
